@@ -104,16 +104,42 @@ def run(ctx):
     # ---------------------------------------------------------------- R1
     ctx.rule("C13-R1", "filter table: dropped iff (peak_flux>0 and "
              "nopositive) or (peak_flux<0 and nonegative)")
-    filt = [s for s in walk_no_nested(dr.node) if isinstance(s, ast.If) and
-            {"nopositive", "nonegative"} & names_in(s.test) and any(
-                isinstance(x, ast.Attribute) and x.attr == "peak_flux"
-                for x in ast.walk(s.test))]
+    from .c08 import _resolve_local
+    import copy as _copy
+
+    class _R(ast.NodeTransformer):
+        def visit_Name(self, nd):
+            if isinstance(nd.ctx, ast.Load) and nd.id not in (
+                    "nopositive", "nonegative"):
+                r = _resolve_local(dr.node, nd)
+                if r is not nd and {"nopositive", "nonegative"} & \
+                        names_in(r):
+                    return _copy.deepcopy(r)
+            return nd
+    filt = []
+    for s_ in walk_no_nested(dr.node):
+        if isinstance(s_, ast.If):
+            t_ = ast.fix_missing_locations(_R().visit(
+                _copy.deepcopy(s_.test)))
+            if {"nopositive", "nonegative"} & names_in(t_) and any(
+                    isinstance(x, ast.Attribute) and x.attr == "peak_flux"
+                    for x in ast.walk(t_)):
+                filt.append((s_, t_))
     if len(filt) != 1:
         raise AnalysisError("C13-R1: expected one polarity filter in the "
                             "driver, found %d" % len(filt))
-    f = filt[0]
-    drops = any(isinstance(b, ast.Continue) for b in f.body)
-    fluxname = sorted({norm(x) for x in ast.walk(f.test)
+    f, ftest = filt[0]
+    has_cont = any(isinstance(b, ast.Continue) for b in f.body)
+    has_app = any(isinstance(c, ast.Call) and
+                  isinstance(c.func, ast.Attribute) and
+                  c.func.attr == "append" for b in f.body
+                  for c in ast.walk(b))
+    if has_cont == has_app:
+        raise AnalysisError("C13-R1: filter body neither skips nor appends")
+    # truth of the test means: dropped (continue) or kept (append)
+    test_means_drop = has_cont
+    drops = True
+    fluxname = sorted({norm(x) for x in ast.walk(ftest)
                        if isinstance(x, ast.Attribute) and
                        x.attr == "peak_flux"})
     if len(fluxname) != 1:
@@ -122,13 +148,15 @@ def run(ctx):
     for flux in (-1.0, 0.0, 1.0):
         for nop in (False, True):
             for non in (False, True):
-                got = bool(ev_bool(f.test, {fluxname[0]: flux,
-                                            "nopositive": nop,
-                                            "nonegative": non}))
+                got = bool(ev_bool(ftest, {fluxname[0]: flux,
+                                           "nopositive": nop,
+                                           "nonegative": non}))
+                if not test_means_drop:
+                    got = not got
                 want = (flux > 0 and nop) or (flux < 0 and non)
                 if got != want:
                     bad.append((flux, nop, non, got))
-    ctx.check("C13-R1", dr, "filter `%s` over 12 cases" % norm(f.test, 80),
+    ctx.check("C13-R1", dr, "filter `%s` over 12 cases" % norm(ftest, 80),
               drops and not bad,
               "filter disagrees with the table for (flux, nopositive, "
               "nonegative, dropped) = %s" % bad[:4], {"bad": bad}, f)
@@ -138,10 +166,17 @@ def run(ctx):
         for ch in ast.iter_child_nodes(x):
             pm[ch] = x
     loop = pm.get(f)
-    ok = isinstance(loop, ast.For) and len(loop.body) == 2 and \
-        isinstance(loop.body[1], ast.Expr) and \
-        norm(loop.body[1]).replace(" ", "") == \
-        "sources.append(%s)" % fluxname[0].split(".")[0]
+    var = fluxname[0].split(".")[0]
+    apps = [c for c in ast.walk(loop) if isinstance(c, ast.Call) and
+            isinstance(c.func, ast.Attribute) and c.func.attr == "append"] \
+        if isinstance(loop, ast.For) else []
+    others = [s_ for s_ in (loop.body if isinstance(loop, ast.For) else [])
+              if s_ is not f and not (isinstance(s_, ast.Expr) and any(
+                  c in ast.walk(s_) for c in apps)) and not (
+                  isinstance(s_, ast.Assign) and s_.lineno < f.lineno)]
+    ok = isinstance(loop, ast.For) and norm(loop.target) == var and \
+        len(apps) == 1 and [norm(a) for a in apps[0].args] == [var] and \
+        not others
     ctx.check("C13-R1", dr, "kept sources are appended unchanged", ok,
               "the only effect of the filter must be to skip the append",
               node=f)
@@ -155,6 +190,19 @@ def run(ctx):
                     isinstance(x.ctx, ast.Load):
                 n += 1
                 inside = any(x is y for y in ast.walk(f.test))
+                if not inside:
+                    # a named intermediate that only feeds the filter test
+                    st_ = _stmt(pm, x)
+                    if isinstance(st_, ast.Assign) and \
+                            len(st_.targets) == 1 and \
+                            isinstance(st_.targets[0], ast.Name):
+                        nm_ = st_.targets[0].id
+                        uses = [u for u in walk_no_nested(dr.node)
+                                if isinstance(u, ast.Name) and u.id == nm_
+                                and isinstance(u.ctx, ast.Load)]
+                        inside = bool(uses) and all(
+                            any(u is y for y in ast.walk(f.test))
+                            for u in uses)
                 ctx.check("C13-R2", dr, "read of %s at line-independent "
                           "site %s" % (nm, "filter" if inside else
                                        norm(_stmt(pm, x), 60)), inside,
@@ -241,7 +289,10 @@ def r3(ctx, prog):
             return super().call(n)
 
     def bounds(stmts):
-        tr = T(prog, mod, {"amp": amp, "outerclip": o, "innerclip": i_})
+        tr = T(prog, mod, {"amp": amp, "outerclip": o, "innerclip": i_},
+               free_symbols=True)
+        sym.number_locals(tr, fi.node, ab[0].lineno,
+                          skip=("amp", "outerclip", "innerclip"))
         tr.exec(stmts)
         return tr.env.get("amp_min"), tr.env.get("amp_max")
     try:
